@@ -32,6 +32,7 @@ type vfConn struct {
 	noHalf  bool // CloseWrite/CloseRead report an error
 	log     *[]string
 	slowWriteAt int  // index of the write that takes a long time (-1: none)
+	checkDeadline bool // compare armed deadlines with the clock
 	pastDeadline bool // a read deadline was set that had already expired
 	idle          time.Duration // the idle time-out the harness configured (0: unknown)
 	shortDeadline bool          // a read deadline was armed at less than half the idle time-out
@@ -103,7 +104,7 @@ func (c *vfConn) RemoteAddr() net.Addr               { return nil }
 func (c *vfConn) SetDeadline(t time.Time) error      { c.ev("D"); return nil }
 func (c *vfConn) SetReadDeadline(t time.Time) error {
 	c.ev("RD")
-	if t.Before(time.Now()) {
+	if c.checkDeadline && t.Before(time.Now()) { // only under the concrete clock (forks on symbolic instants)
 		c.pastDeadline = true
 	}
 	if c.idle > 0 && !t.IsZero() && t.Before(time.Now().Add(c.idle/2)) {
